@@ -170,7 +170,9 @@ Proof.
     rewrite compile_filter_plain by (auto; reflexivity). cbn [cb_matched].
     destruct (st_matched s) eqn:Em; cbn [negb] in *.
     + cbn in Hdom. rewrite !andb_true_iff, negb_true_iff, !orb_false_iff in Hdom.
-      destruct Hdom as (_ & _ & Hmem). apply mem_false in Hmem.
+      destruct Hdom as (_ & _ & Hmem).
+      assert (Hmem' : ~ In (st_name s) (map e_name (r_live r))).
+      { intro H. apply is_live_true in H. congruence. }
       cbn [r_live r_used]. rewrite !map_app. cbn.
       split; [|split; [|split]].
       * intro n. rewrite !in_app_iff. rewrite (Hn n). tauto.
